@@ -78,6 +78,32 @@ func checkPlantedCase(c plantedCase, rec *Rec) error {
 		if omega != c.K {
 			return fmt.Errorf("%s CliqueNumber = %d want %d", what, omega, c.K)
 		}
+		// degeneracy with its order certificate (greedy min-degree deletion as the oracle, any size)
+		{
+			var dg int
+			var ord []int
+			if p := try(func() { dg, ord = graph.Degeneracy(gr) }); p != nil {
+				return fmt.Errorf("%s Degeneracy panicked: %v", what, p)
+			}
+			if want := oracle.DegeneracyGreedy(g); dg != want {
+				return fmt.Errorf("%s Degeneracy = %d want %d", what, dg, want)
+			}
+			if !oracle.IsPerm(ord, c.N) {
+				return fmt.Errorf("%s Degeneracy order %v is not a permutation", what, ord)
+			}
+			pos := invPerm(ord)
+			for _, x := range ord {
+				before := 0
+				for _, u := range g.Nbrs(x) {
+					if pos[u] < pos[x] {
+						before++
+					}
+				}
+				if before > dg {
+					return fmt.Errorf("%s Degeneracy order %v: vertex %d is preceded by %d neighbours, d = %d", what, ord, x, before, dg)
+				}
+			}
+		}
 		// all maximal cliques, beyond the subset-enumeration sizes: against the oracle's own recursion, each exactly once
 		if wantCl, ok := oracle.MaximalCliquesLarge(g, 60000); ok {
 			gotCl, err := drainCliques(gr)
@@ -133,6 +159,6 @@ func checkPlantedCase(c plantedCase, rec *Rec) error {
 
 func init() {
 	RegisterRapid("C09_planted_chi_omega",
-		"rapid: random K-partite graphs (K in 1..6, density 1/8..7/8 between classes) with a planted K-clique on 9..40 (thorough 48) vertices (the exponential colouring functions up to 26 / 34 vertices), relabelled by a uniform permutation, so chi = omega = K by construction: ChromaticNumber (value and witness), CliqueNumber, IsKColorable(K-1) = false, IsKColorable(K) and (K+1) = true with valid witnesses, GreedyColor proper, AllMaximalCliques against an independent recursion (each clique once, delivered cliques never change afterwards); dense, sparse and view inputs. Covers sizes beyond the O(3^n) oracle. Non-trivial: n >= 12 and K >= 3.",
+		"rapid: random K-partite graphs (K in 1..6, density 1/8..7/8 between classes) with a planted K-clique on 9..40 (thorough 48) vertices (the exponential colouring functions up to 26 / 34 vertices), relabelled by a uniform permutation, so chi = omega = K by construction: ChromaticNumber (value and witness), CliqueNumber, IsKColorable(K-1) = false, IsKColorable(K) and (K+1) = true with valid witnesses, GreedyColor proper, Degeneracy (value against greedy minimum-degree deletion, order certificate), AllMaximalCliques against an independent recursion (each clique once, delivered cliques never change afterwards); dense, sparse and view inputs. Covers sizes beyond the O(3^n) oracle. Non-trivial: n >= 12 and K >= 3.",
 		Budget{Checks: 1500, Shards: 2}, Budget{Checks: 4000, Shards: 16}, genPlantedCase, checkPlantedCase)
 }
